@@ -393,6 +393,14 @@ def compile_and_instrument(chk, r, tier, inline_all=False, loop_contracts=None):
         for g in unit.cfg.get('replace_always', []):
             if g != chk.fn and g not in repl and contract_clauses(r.pp_text, g) is not None:
                 repl.append(g)
+    # a callee that the extracted unit no longer mentions at all (a changed caller stopped calling it and nothing else
+    # instantiates it) cannot be replaced: dfcc aborts on a name that is not in the goto model
+    if getattr(unit, 'unit_c_text', None) is None:
+        unit.unit_c_text = open(os.path.join(unit.work, 'unit.c')).read()
+    gone = [g for g in repl if not re.search(r'\b' + re.escape(g) + r'\s*\(', unit.unit_c_text)]
+    if gone:
+        repl = [g for g in repl if g not in gone]
+        r.note += 'callees no longer present in the unit (not replaced): %s; ' % ','.join(gone)
     if not inline_all:
         for g in repl:
             cmd += ['--replace-call-with-contract', g]
